@@ -113,8 +113,8 @@ def Subnet.hosts (s : Subnet) : Nat := 2 ^ (32 - s.ones)
 def Subnet.contains (s : Subnet) (a : Nat) : Bool :=
   s.isV4 && a / s.hosts == s.base / s.hosts
 
-/-- a network as `net.ParseCIDR` produces it: masked base, 1 … 32 leading ones -/
-def Subnet.wf (s : Subnet) : Prop := s.isV4 = true → (1 ≤ s.ones ∧ s.ones ≤ 32 ∧ s.base % s.hosts = 0 ∧ s.base + s.hosts ≤ 2 ^ 32)
+/-- a network as `net.ParseCIDR` produces it: the base address is masked (aligned to the network size) -/
+def Subnet.wf (s : Subnet) : Prop := s.isV4 = true → s.base % s.hosts = 0
 
 /-! ### weighted choice (the repaired loop: first cumulative weight above the draw) -/
 
